@@ -24,6 +24,7 @@ import (
 	"github.com/sourcenetwork/defradb/internal/datastore"
 	"github.com/sourcenetwork/defradb/internal/db"
 	"github.com/sourcenetwork/defradb/internal/keys"
+	"github.com/sourcenetwork/defradb/node"
 )
 
 type Node struct {
@@ -45,7 +46,11 @@ func NewOn(ctx context.Context, root corekv.TxnStore, acp immutable.Option[dac.D
 	if err != nil {
 		return nil, err
 	}
-	d, err := db.NewDB(ctx, root, nac, acp, nil, opts...)
+	lens, err := node.NewLens(ctx)
+	if err != nil {
+		return nil, err
+	}
+	d, err := db.NewDB(ctx, root, nac, acp, lens, opts...)
 	if err != nil {
 		return nil, err
 	}
